@@ -1,5 +1,6 @@
 import Irismod.Props.C12
 open Irismod Irismod.Props.C12
+-- MT: the full statement holds
 #print axioms mt_wf_init
 #print axioms mt_wf_step
 #print axioms mt_wf_reachable
@@ -10,6 +11,24 @@ open Irismod Irismod.Props.C12
 #print axioms mt_import_closed
 #print axioms mt_roundtrip_reachable
 #print axioms mt_roundtrip_twice
--- non-vacuity: a concrete reachable MT store (two classes, two tokens, a zero-amount balance entry, a
+#print axioms mt_freshRun_of_B
+-- record (F-gen-3)
+#print axioms record_export_validates
+#print axioms record_import_partial
+#print axioms record_two_swap
+#print axioms record_roundtrip_fails
+-- HTLC (F-gen-1)
+#print axioms htlc_roundtrip_fails
+#print axioms htlc_validate_partial
+#print axioms htlc_fixed_validates
+-- oracle (F-gen-2)
+#print axioms oracle_import_keeps_last_written
+#print axioms oracle_roundtrip_fails
+#print axioms oracle_roundtrip_partial
+-- non-vacuity: a concrete MT history with fresh ids (freshRunB) reaching a store (two classes, two tokens, a zero-amount balance entry, a
 -- max-uint64 supply) round-trips in the executable model
 #eval s!"nonvacuous {mtDemoCheck}"
+-- the hypothesis of record_roundtrip_fails: four closed SHA-256 facts the kernel cannot evaluate
+-- (store order of the two witness records is the reverse of their creation order; the first id is
+-- neither of the two re-derived ids)
+#eval s!"nonvacuous record-witness-facts {decide Irismod.Spec.C12.Record.WitnessFacts}"
